@@ -457,7 +457,7 @@ var pseudoTag = map[string]bool{"thorough": true, "scoped": true, "induct": true
 
 func hasProp(props []string, p string) bool {
 	for _, q := range props {
-		if q == p || (q == "*" && !pseudoTag[p]) {
+		if q == p || (q == "*" && !pseudoTag[p] && !strings.Contains(p, "=")) {
 			return true
 		}
 	}
